@@ -372,6 +372,22 @@ class Machine:
     def eval_top(self, form):
         return self.run(("eval", form, self.globals, ("halt",)))
 
+    def new_unit(self):
+        """Start a new top-level evaluation unit.  Global references compiled in a unit are resolved to
+        the binding cells in force for that unit: a later unit that *defines* an already defined name gets
+        a fresh cell (earlier code keeps the old one), while set! writes the shared cell."""
+        e = Env()
+        e.vars = dict(self.globals.vars)
+        self.globals = e
+
+    def run_unit(self, forms):
+        """Evaluate one unit.  Returns (outcome, emits, out) for this unit only."""
+        self.new_unit()
+        n_e, n_o = len(self.emits), len(self.out)
+        self.steps = 0
+        outcome, payload = self.run_program(forms)
+        return (outcome, self.emits[n_e:], "".join(self.out[n_o:]))
+
     # -- the loop -------------------------------------------------------------------------------
     def run(self, state):
         while True:
